@@ -32,13 +32,51 @@ def build_plain(eng, p, module, factory, args, kws=None, n_sources=1):
     return q, subs[0], observer
 
 
-def set_cell(q, clo, name, value):
-    cid = clo.scope.lookup(name)
+def state_names(clo):
+    """nonlocal variables a handler assigns: the state it keeps between calls"""
+    import ast
+    if not isinstance(clo, Closure) or isinstance(clo.node, ast.Lambda):
+        return []
+    names = set()
+    for n in ast.walk(clo.node):
+        if isinstance(n, ast.Nonlocal):
+            names.update(n.names)
+    assigned = {n.id for n in ast.walk(clo.node) if isinstance(n, ast.Name) and isinstance(n.ctx, ast.Store)}
+    return sorted(names & assigned)
+
+
+def resolve_cell(q, clo, name, role=None):
+    """binding of a contract's state variable to the handler's closure variable: by name if it exists, else by role (the only state
+    variable, or the only one whose initial value satisfies `role`); unresolved -> the function is undecided, never violated"""
+    cid = clo.scope.lookup(name) if isinstance(clo, Closure) else None
+    if cid is not None and cid in q.cells:
+        return cid
+    cands = state_names(clo)
+    if role is not None:
+        cands = [n for n in cands if role(q.cells.get(clo.scope.lookup(n)))]
+    if len(cands) == 1:
+        return clo.scope.lookup(cands[0])
+    from ..engine import Unsupported
+    raise Unsupported(f'cannot bind the contract variable `{name}` to a closure variable of {getattr(clo, "qual", clo)} (candidates: {cands})')
+
+
+def set_cell(q, clo, name, value, role=None):
+    q.cells[resolve_cell(q, clo, name, role)] = value
+    clo.__dict__.setdefault('_bound', {})[name] = resolve_cell
+
+
+def get_cell(q, clo, name, role=None):
+    b = getattr(clo, '_bindings', {})
+    if name in b:
+        return q.cells[b[name]]
+    return q.cells[resolve_cell(q, clo, name, role)]
+
+
+def bind(q, clo, name, value, role=None):
+    """set + remember the binding (the post-state is read through the same cell even if the initial value no longer matches `role`)"""
+    cid = resolve_cell(q, clo, name, role)
     q.cells[cid] = value
-
-
-def get_cell(q, clo, name):
-    return q.cells[clo.scope.lookup(name)]
+    clo.__dict__.setdefault('_bindings', {})[name] = cid
 
 
 def emits(q, *es):
@@ -61,7 +99,7 @@ class ScanObs(FnCase):
         self.wiring_ok = isinstance(hs.get('on_error'), Bound) and hs['on_error'].obj is obs
         self.h = h
         self.s0 = Const('state0', Val); self.has0 = Bool('has_state0')
-        set_cell(q, h, 'state', SVal(self.s0)); set_cell(q, h, 'has_state', SBool(self.has0))
+        bind(q, h, 'has_state', SBool(self.has0), role=lambda v: v is False); bind(q, h, 'state', SVal(self.s0), role=lambda v: v is None)
         q.trace = T0; q.calls = []; q.pc = []
         self.path = q
         return h, ([SVal(X_)] if self.handler == 'on_next' else []), {}
@@ -148,11 +186,8 @@ class Assert1Plain(FnCase):
         self.h = hs['on_next']
         self.hist = Const('hist', ValSeq)
         n = Length(self.hist)
-        set_cell(q, self.h, 'last', SVal(If(n > 0, self.hist[n - 1], V.VNone)))
-        try:
-            set_cell(q, self.h, 'has_last', SBool(n > 0))
-        except Exception:
-            pass
+        bind(q, self.h, 'has_last', SBool(n > 0), role=lambda v: v is False)
+        bind(q, self.h, 'last', SVal(If(n > 0, self.hist[n - 1], V.VNone)), role=lambda v: v is None)
         q.trace = T0; q.calls = []; q.pc = []
         self.path = q
         return self.h, [SVal(X_)], {}
